@@ -1526,11 +1526,24 @@ class MacroFunction(Macro):
         if self.has_strcat:
             res_tokens = []
             last_cat = False
+            empty_cat = False
             idx = 0
 
             while idx < len(self.replacement):
                 tok = self.replacement[idx]
-                if tok.token == "##":
+                if tok.token == "##" and last_cat and empty_cat:
+                    # The previous concatenation produced no token at all,
+                    # so there is nothing to paste onto.
+                    idx += 1
+                    nexttok = self.replacement[idx]
+                    try:
+                        argidx = self.args.index(nexttok.token)
+                        nexttok = input_args[argidx][0]  # Unexpanded arg
+                    except ValueError:
+                        nexttok = [nexttok]
+                    res_tokens.extend(nexttok)
+                    empty_cat = len(nexttok) == 0
+                elif tok.token == "##":
                     last = res_tokens.pop()
                     prev_white = last.prev_white
                     if not last_cat:
@@ -1569,6 +1582,7 @@ class MacroFunction(Macro):
                     else:
                         res_tokens.extend(nexttok)
                     last_cat = True
+                    empty_cat = len(last) == 0 and len(nexttok) == 0
                 elif tok.token == "#":
                     idx += 1
                     if idx == len(self.replacement):
